@@ -52,11 +52,16 @@ Definition prelude_ok (pr : prelude) : bool :=
   pre_recognised pr && src_raw (pre_conv_arg pr) &&
   match pre_guard pr with GuardOther => false | _ => true end.
 
-(* the class: names of the declared (Anything) fields other than "version"; _required; the class's own
-   _additional_properties (None = not declared) *)
-Record vclass := { vc_fields : list pystr; vc_required : list pystr; vc_additional : option bool }.
+(* the class: names of the declared fields other than "version" (Anything, or scalar fields holding values of
+   their own type: both pass the document's value through); _required; the class's own _additional_properties
+   (None = not declared) *)
+Record vclass := { vc_fields : list pystr; vc_required : list pystr; vc_additional : option bool;
+                   (* every declared field is Integer/String/Float/Boolean: _structure_simplicity_level accepts
+                      the class for direct_trusted_mapping *)
+                   vc_trusted_eligible : bool }.
 (* global defaults in force and the caller's keep_undefined *)
 Record dopts := { o_keep_undefined : option bool;
+                  o_trusted : bool;                         (* direct_trusted_mapping (no mapper, no camel-case) *)
                   o_additional_default : bool;              (* TypedPyDefaults.additional_properties_default *)
                   o_ignore_invalid_additional : bool }.     (* ...ignore_invalid_additional_properties_in_deserialization *)
 Inductive entry := EDeserializer | EDeserializeStructure.
@@ -101,6 +106,12 @@ Definition construct (ish : init_shape) (c : vclass) (o : dopts) (maps : list ma
   else if negb (additional_allowed c o) && existsb (fun kv => negb (key_is_field c (fst kv))) kw' then Raise TypeError
   else Ok kw'.
 
+(* the direct_trusted_mapping branch for a flat eligible class without mappers and enums:
+   cls.from_trusted_data(<doc>) -- the values of the declared fields that the document has, as they are (no
+   validation, no required check, non-field keys dropped); Versioned.__init__ still sets the version *)
+Definition trusted_construct (ish : init_shape) (c : vclass) (maps : list mapping) (source : dict) : res dict :=
+  Ok (versioned_init_kwargs_s ish maps (filter (fun kv => key_is_field c (fst kv)) source)).
+
 Section WithFunctions.
   Variable fn : N -> list pyval -> res pyval.
   Variable p : cd_params.
@@ -117,8 +128,9 @@ Section WithFunctions.
     if pre_requires_version pr && negb (dict_has raw version_key) then Raise TypeError else
     conv <- prelude_convert pr maps raw ;;
     let pick r := if role_reads_converted sites r then conv else raw in
-    construct ish c o maps
-              (dict_update (undefined_kwargs e c o (pick RUndefined)) (fields_map c (pick RFields))).
+    if o_trusted o && vc_trusted_eligible c then trusted_construct ish c maps (pick RTrusted)
+    else construct ish c o maps
+                   (dict_update (undefined_kwargs e c o (pick RUndefined)) (fields_map c (pick RFields))).
 End WithFunctions.
 
 (* the read sites as the pinned source has them (every read is of the converted document) *)
